@@ -223,9 +223,11 @@ def run(ctx):
     ctx.guard("program", None, program_stratum, ctx)
     if ctx.shard == 2 % ctx.nshards:
         ctx.guard("repo-tests", None, repo_tests_under_contracts, ctx)
-    for i in ctx.mine(ctx.n(4000, 150000)):
+    # (thorough: 40 000 random histories of up to 60 steps beside the 3.8 M exhaustive ones -- with the queries added
+    # per step since, 150 000 x 80 no longer finished in two hours on 16 cores)
+    for i in ctx.mine(ctx.n(4000, 40000)):
         r = ctx.rng("random", i)
-        hist = gen_history(r, max_steps=ctx.n(30, 80), max_nodes=ctx.n(8, 10), metadata=True, mixed=True)
+        hist = gen_history(r, max_steps=ctx.n(30, 60), max_nodes=ctx.n(8, 10), metadata=True, mixed=True)
         nt = ctx.guard("random", hist, lockstep, ctx, hist, "random")
         ctx.case("random", hist, bool(nt))
 
